@@ -225,21 +225,19 @@ def run(ctx):
     # 2. spec -> code: behaviours generated by TLC at the real size, replayed on the interpreter
     d = Driver(ctx)
     nbeh = 0
-    for (w, modes, adapter) in ((80, '{0, 1, 2}', 'cga'), (40, '{0, 1, 2, 7, 8, 9}', 'ega')):
+    for (w, modes, adapter) in ((80, '{0, 1, 2, 7, 8, 9}', 'ega'),):
         cfg = ctx.path('sim_%d.cfg' % w)
         with open(cfg, 'w') as f:
             f.write('SPECIFICATION Spec\nCONSTANTS\n  TextWidths = {40, 80}\n  W = %d\n  H = 25\n  D = %d\n  N = %d\n  Seed = %d\n  Modes = %s\n'
-                    'INVARIANT Emit\nCHECK_DEADLOCK FALSE\n' % (w, 30, ctx.pick(12, 150), (ctx.seed * 2 + w) % 60000, modes))
+                    'INVARIANT Emit\nCHECK_DEADLOCK FALSE\n' % (w, 30, ctx.pick(24, 300), (ctx.seed * 2 + w) % 60000, modes))
         r = ctx.tlc('TextScreen_Sim', cfg, workers=1, tag='behaviour generation %dx25' % w, timeout=1500)
         if not r['ok']:
             raise core.MachineryError('behaviour generation failed: %s\n%s' % (r['error'], r['out'][-2000:]))
         behs = parse_behaviours(r['out'])
         if not behs:
             raise core.MachineryError('no behaviours generated')
-        for beh in behs:
-            d.fresh(adapter)
-            if w == 40:
-                d.do({'op': 'width', 'n': 40})
+        for i, beh in enumerate(behs):
+            d.fresh(('ega', 'vga', 'cga')[i % 3])
             for a in beh:
                 d.do(a)
             nbeh += 1
